@@ -29,10 +29,22 @@ ASSUME = [
 ]
 
 
+def ill_scaled(rng, inst, p=0.1):
+    """a change of units that leaves the exponent columns six orders of magnitude apart (column j times 2^11 or 2^-10, exact in
+    binary; the points of R^n are scaled the other way)"""
+    if inst['X'] is not None or inst['n'] < 2 or rng.random() >= p:
+        return inst
+    ks = [rng.choice([11, -10, 0]) for _ in range(inst['n'])]
+    ks[0], ks[1] = (11, -10) if rng.random() < 0.5 else (-10, 11)
+    inst['alpha'] = [[common.frac_str(F(x) * F(2) ** k) for x, k in zip(r, ks)] for r in inst['alpha']]
+    inst['xscale'] = [float(F(2) ** (-k)) for k in ks]
+    return inst
+
+
 def structural(ctx, rng, count, all32):
     cases, lines, outs = [], [], []
     for k in range(count):
-        inst = sm.gen_instance(rng, primal=True)
+        inst = ill_scaled(rng, sm.gen_instance(rng, primal=True))
         setts = list(sm.all_settings()) if all32 else [sm.DEFAULTS] + [sm.rand_settings(rng) for _ in range(3)]
         for s in setts:
             try:
@@ -131,6 +143,8 @@ def _audit_instance(ctx, rng, inst, settings, direction=None):
             if neg:
                 return 'AGE vector %d has negative entries at %s besides its own index' % (i, neg)
     pts = sm.domain_points(inst['X'], n, rng, 40)
+    if inst.get('xscale'):
+        pts = [[v * sc for v, sc in zip(p, inst['xscale'])] for p in pts]
     ctx.count('audit:points', len(pts))
     for x in pts:
         ex = np.exp(alpha @ np.asarray(x))
@@ -198,6 +212,7 @@ def run(ctx):
         inst = sm.gen_instance(rng, primal=True, m=rng.randint(3, 5))
         if inst['nuser'] == 0 or (inst['X'] is not None and inst['X']['N'] != inst['n']):
             continue
+        inst = ill_scaled(rng, inst)
         s = sm.DEFAULTS if rng.random() < 0.5 else sm.rand_settings(rng)
         try:
             why = audit_instance(ctx, rng, inst, s)
